@@ -123,6 +123,13 @@ func checkC08(c *Ctx) {
 	}
 	reps = append(reps, rep{"ambiguous", map[string]string{"go.mod": pgen.GoMod, "p/p.go": c08Ambiguous}, tierN(c, 64, 256), []string{"./p"}})
 	reps = append(reps, rep{"functional", map[string]string{"go.mod": pgen.GoMod, "p/p.go": c12Functional}, 16, []string{"./p"}})
+	// two imported packages with the same name, used as named non-pointer argument types by several
+	// plugins: which of the two gets the short import alias must not depend on map iteration order
+	reps = append(reps, rep{"samename", map[string]string{"go.mod": pgen.GoMod,
+		"old/model/m.go": "package model\n\ntype Item struct {\n\tN int\n\tS []string\n}\n\ntype Items []Item\n\ntype ID int64\n",
+		"new/model/m.go": "package model\n\ntype Item struct {\n\tK string\n\tP *int\n}\n\ntype Items []Item\n\ntype ID string\n",
+		"p/p.go": "package p\n\nimport (\n\tnewmodel \"scratch/new/model\"\n\toldmodel \"scratch/old/model\"\n)\n\nfunc e(a, b oldmodel.Items) bool { return deriveEqual(a, b) }\n\nfunc d(a, b newmodel.Items) { deriveDeepCopy(a, b) }\n\nfunc h(a oldmodel.Item) uint64 { return deriveHash(a) }\n\nfunc c(a, b newmodel.Item) int { return deriveCompare(a, b) }\n\nfunc g(a newmodel.Items) string { return deriveGoString(a) }\n\nfunc k(m map[oldmodel.ID]newmodel.ID) []oldmodel.ID { return deriveSort(deriveKeys(m)) }\n\nfunc cl(a oldmodel.Items) oldmodel.Items { return deriveClone(a) }\n\nfunc u(l []newmodel.ID) []newmodel.ID { return deriveUnique(l) }\n"},
+		tierN(c, 32, 128), []string{"./p"}})
 
 	for _, rp := range reps {
 		sums := make([]string, rp.n)
